@@ -1198,8 +1198,12 @@ def raw_monomials(expr, ids):
             for fac in f.as_ordered_factors():
                 if isinstance(fac, sympy.Pow):
                     b, k = fac.args
-                    if not isinstance(b, Symbol) or int(k) < 0:
-                        raise ValueError("nested or negative power")
+                    k = int(k)
+                    while isinstance(b, sympy.Pow):  # (Z0**2)**4: sympy keeps nested powers of nc symbols
+                        b, k2 = b.args
+                        k *= int(k2)
+                    if not isinstance(b, Symbol) or k < 0:
+                        raise ValueError("negative power")
                     fs.append(f"S {sym_tokens_real(b, ids)} {int(k)}")
                     key.append((ids.of(b.name), int(k)))
                 elif isinstance(fac, Symbol):
@@ -1226,13 +1230,26 @@ def parse_gis(s):
     return parse_gi(s)
 
 
-def real_terms_canon(h, ids):
-    """real term list, canonical: factor-name tuple -> (sum of coefficients, targets, sum of matrices)."""
+def embed_local(m, qs, n):
+    """a local matrix on the ordered qubits `qs` as a 2^n x 2^n matrix."""
+    qs = list(qs)
+    rest = [q for q in range(n) if q not in qs]
+    full = np.kron(np.asarray(m), np.eye(2 ** len(rest))).reshape(2 * n * (2,))
+    order = qs + rest
+    inv = [order.index(q) for q in range(n)]
+    return full.transpose(inv + [n + i for i in inv]).reshape(2**n, 2**n)
+
+
+def real_terms_canon(h, ids, n):
+    """real term list, canonical: factor-name tuple -> (sum of coefficients, set of target
+    qubits, sum of the term matrices embedded in the register) — independent of the order
+    of the terms, of a split of one term into several, and of the order in which a term
+    lists its target qubits."""
     out = {}
     for t in h.terms:
         key = tuple(ids.of(f.name) for f in t.factors)
         c, tq, m = out.get(key, (0, None, 0))
-        out[key] = (c + complex(t.coefficient), tuple(t.target_qubits), m + np.asarray(t.matrix))
+        out[key] = (c + complex(t.coefficient), frozenset(t.target_qubits), m + embed_local(t.matrix, t.target_qubits, n))
     return out
 
 
@@ -1262,8 +1279,7 @@ def corr_forms(ctx):
         expr, _ = build_expr(f, style, g.custom, g.qubit_of)
         expr = sympy.sympify(expr)
         if has_nested_pow(expr):
-            ctx.stat("corr_skipped_nested_pow")
-            continue
+            ctx.stat("corr_form_nested_pow")
         ids = SymIds()
         try:
             tree = tree_tokens(expr, ids)
@@ -1324,16 +1340,17 @@ def corr_forms(ctx):
             c = parse_gis(c)[0]
             mm = parse_gis(m)
             oc, _, om = model_terms.get(key, (0, None, 0))
-            model_terms[key] = (oc + c, tuple(int(x) for x in tq.split()), om + mm)
+            tqs = [int(x) for x in tq.split()]
+            model_terms[key] = (oc + c, frozenset(tqs), om + embed_local(mm.reshape(2 ** len(tqs), 2 ** len(tqs)), tqs, n))
         const, av, ar, vg = parts[-1].split(";")
         try:
-            real_terms = real_terms_canon(h, ids)
+            real_terms = real_terms_canon(h, ids, n)
             okt = set(k for k, val in real_terms.items() if abs(val[0]) > 1e-12) == set(k for k, val in model_terms.items() if abs(val[0]) > 1e-12)
             for k in real_terms:
                 if not okt or abs(real_terms[k][0]) <= 1e-12:
                     continue
                 okt = okt and close(real_terms[k][0], model_terms[k][0]) and real_terms[k][1] == model_terms[k][1] \
-                    and np.array_equal(np.asarray(real_terms[k][2]).reshape(-1), model_terms[k][2])
+                    and np.array_equal(np.asarray(real_terms[k][2]), model_terms[k][2])
             okt = okt and close(complex(h.constant), parse_gis(const)[0])
             okt = okt and np.array_equal(parse_gis(av), v) and np.array_equal(parse_gis(ar), r) and np.array_equal(parse_gis(vg), v)
         except Exception:
@@ -1355,7 +1372,7 @@ def corr_forms(ctx):
                  "        for fac in t.factors:\n"
                  "            if fac.target_qubit == q: fq = fq @ np.asarray(fac.matrix)\n"
                  "        m = np.kron(m, fq)\n"
-                 "    assert tuple(t.target_qubits) == tuple(sorted(set(fac.target_qubit for fac in t.factors)))\n"
+                 "    assert set(t.target_qubits) == set(fac.target_qubit for fac in t.factors)\n"
                  "    assert np.allclose(t.matrix, m, atol=1e-9)\n",
                  expected=str({str(k): str(v[0]) for k, v in model_terms.items()}), observed="see replay", broken=["C15_corr_terms"])
         # (4) the expansion oracle (sympy) vs the model's expand
@@ -1386,3 +1403,156 @@ class _NameGen:
 
 def _ast_name(f):
     return f[1] + str(f[2]) if f[1] in PAULI else f"{f[1]}_{f[2]}"
+
+
+def corr_samples(ctx):
+    """expectation_from_samples of both classes vs the model (scaled by the number of shots,
+    integer coefficients and counts: exact)."""
+    import sympy
+
+    from qibo.hamiltonians import Hamiltonian, SymbolicHamiltonian
+
+    rng = ctx.rng
+    N = 80 if ctx.thorough else 30
+    lines, meta = [], []
+    for it in range(N):
+        n = rng.choice([1, 2, 3, 3, 4])
+        f = z_form(rng, n) if it > 1 else ("*", ("s", "Z", 0), ("*", ("s", "Z", n - 1), ("s", "Z", 0)))
+        f = _int_coeffs(f)
+        e, _ = build_expr(f, "int", {}, {})
+        e = sympy.sympify(e)
+        ids = SymIds()
+        try:
+            mons, _ = raw_monomials(e, ids)
+            tree = tree_tokens(e, ids)
+        except ValueError:
+            continue
+        perms = list(itertools.permutations(range(n)))
+        qm = list(rng.choice(perms))
+        keys = list(dict.fromkeys("".join(rng.choice("01") for _ in range(n)) for _ in range(rng.randint(1, 6))))
+        freq = {k: rng.randint(1, 30) for k in keys}
+        lines.append(f"SAMPLES {n} {mons} {tree} {n} {' '.join(map(str, qm))} {len(freq)} " + " ".join(f"{k} {c}" for k, c in freq.items()))
+        meta.append((n, f, e, qm, freq))
+    outs = run_driver(lines, driver=DRIVER)
+    bad = 0
+    for (n, f, e, qm, freq), out in zip(meta, outs):
+        a, b, c = [parse_gis(x)[0] for x in out.split(";")]
+        tot = sum(freq.values())
+        M = spec_matrix(f, n, {})
+        hs = SymbolicHamiltonian(e, nqubits=n)
+        hd = Hamiltonian(n, M.copy())
+        ctx.case(("corr-samples", form_src(f), tuple(qm), tuple(sorted(freq.items()))))
+        ctx.stat("corr_samples")
+        try:
+            rs = hs.expectation_from_samples(dict(freq), qubit_map=list(qm)) * tot
+            rd = hd.expectation_from_samples(dict(freq), qubit_map=list(qm)) * tot
+        except Exception as ex:
+            rs = rd = float("nan")
+        ok = close(rs, a.real, 1e-9) and close(rd, b.real, 1e-9) and a == b == c
+        if not ok:
+            bad += 1
+            which = "symbolic" if not close(rs, c.real, 1e-9) else "dense"
+            rep = "repeated-factor" if _has_repeat(hs) else "plain"
+            fail(ctx, f"samples:{which}:{rep}" if a == b == c else "samples:model-inconsistent",
+                 f"expectation_from_samples of {form_src(f)} with qubit_map {qm}, freq {freq}: symbolic {rs / tot}, dense {rd / tot}, frequency-weighted eigenvalues {c.real / tot}",
+                 PRE + f"n = {n}\nform = sympy.sympify({form_src(f)})\nM = {spec_src(f, n)}\nfreq = {freq!r}\nqm = {qm!r}\nexpected = {c.real / tot!r}\n"
+                 "hs = SymbolicHamiltonian(form, nqubits=n); hd = Hamiltonian(n, M)\n"
+                 "assert abs(hs.expectation_from_samples(freq, qubit_map=qm) - expected) < 1e-9\n"
+                 "assert abs(hd.expectation_from_samples(freq, qubit_map=qm) - expected) < 1e-9\n",
+                 expected=c.real / tot, observed=[float(np.real(rs)) / tot, float(np.real(rd)) / tot], broken=["C15_corr_samples"])
+    ctx.ob("C15_corr_samples", bad == 0, "correspondence", f"{bad} disagreements" if bad else "")
+
+
+def _int_coeffs(f):
+    t = f[0]
+    if t == "c":
+        return ("c", int(round(2 * complex(f[1]).real)))
+    if t == "s":
+        return f
+    if t == "sm":
+        return ("sm", int(round(2 * complex(f[1]).real)), _int_coeffs(f[2]))
+    if t == "^":
+        return ("^", _int_coeffs(f[1]), f[2])
+    return (t, _int_coeffs(f[1]), _int_coeffs(f[2]))
+
+
+def corr_models(ctx):
+    """TFIM and the one-body models: real dense builder and real symbolic builder vs the
+    model's `tfimDense` / `dense (tfimForm)` / `oneBodyDense` / `dense (oneBodyForm)`."""
+    from qibo import hamiltonians
+
+    nmax = 5 if ctx.thorough else 4
+    lines, meta = [], []
+    for n in range(1, nmax + 1):
+        for nm in "XYZ":
+            lines.append(f"ONE {n} {gis(PAULI[nm])}")
+            meta.append(("ONE", n, nm))
+        if n >= 2:
+            for h in (0, 1, -2, 3):
+                lines.append(f"TFIM {n} {h} 0")
+                meta.append(("TFIM", n, h))
+    outs = run_driver(lines, driver=DRIVER)
+    bad = 0
+    for (kind, n, par), out in zip(meta, outs):
+        A, B = [parse_gis(x) for x in out.split(";")]
+        ctx.case(("corr-model", kind, n, par))
+        ctx.stat(f"corr_model_{kind}")
+        try:
+            if kind == "ONE":
+                rd = np.asarray(getattr(hamiltonians, par)(n, dense=True).matrix).reshape(-1)
+                rs = np.asarray(getattr(hamiltonians, par)(n, dense=False).matrix).reshape(-1)
+                call = f"hamiltonians.{par}({n}, dense=DENSE)"
+                M = model_formula(par, n)
+            else:
+                rd = np.asarray(hamiltonians.TFIM(n, h=par, dense=True).matrix).reshape(-1)
+                rs = np.asarray(hamiltonians.TFIM(n, h=par, dense=False).matrix).reshape(-1)
+                call = f"hamiltonians.TFIM({n}, h={par}, dense=DENSE)"
+                M = model_formula("TFIM", n, h=par)
+        except Exception:
+            rd = rs = np.zeros(0)
+        if not (np.array_equal(rd, A) and np.array_equal(rs, B)):
+            bad += 1
+            which = "dense" if not np.array_equal(rd, A) else "symbolic"
+            name = par if kind == "ONE" else "TFIM"
+            fail(ctx, f"model:{name}:{which}", f"{call.replace('DENSE', str(which == 'dense'))} differs from the model builder",
+                 PRE + f"h = {call.replace('DENSE', str(which == 'dense'))}\nM = {arr_src(M)}\nassert np.allclose(h.matrix, M, atol=1e-9)\n",
+                 broken=["C15_corr_models"])
+    ctx.ob("C15_corr_models", bad == 0, "correspondence", f"{bad} disagreements" if bad else "")
+
+
+# ---------------------------------------------------------------------------
+
+
+def run(ctx):
+    MODULES, THEOREMS = registry(PROP)
+    ctx.theorems = THEOREMS
+    build_and_audit(ctx, PROP, MODULES, THEOREMS)
+    # correspondence model <-> real code (exact Gaussian-integer data)
+    corr_forms(ctx)
+    corr_samples(ctx)
+    corr_models(ctx)
+    # direct search on the real code against plain numpy arithmetic
+    forms_search(ctx)
+    algebra_search(ctx)
+    eigcache_search(ctx)
+    samples_search(ctx)
+    models_search(ctx)
+    history_search(ctx)
+    ctx.trusted += [
+        "sympy: construction-time normalisation of expressions, `expand`, `as_coefficients_dict`, `as_ordered_terms/factors` keep the order of non-commutative symbols and denote the same element of the free algebra (the model's `expand` is compared with sympy's on every case: obligation C15_corr_expand_oracle)",
+        "numpy kron / matmul / matrix_power / einsum on 2^n-dimensional arrays behave as the bit-label model of QV/Model/Hamil.lean (modelled, compared exactly on Gaussian-integer data on every run)",
+        "np.linalg.eigh / eigvalsh, scipy.linalg.expm (spectra and exponentials are compared numerically, not modelled)",
+    ]
+    ctx.notes.append(
+        "correspondence: random Pauli-polynomial forms (n<=4, several factors per qubit, powers<=4, nested sums in products/powers, "
+        "Gaussian-integer coefficients as python complex / sympy Integer+I, custom 2x2 integer symbols, Hermitian and not) — real dense matrix, "
+        "h@psi, h@rho, term list (coefficients, ordered factors, target qubits, term matrices, constant) and sympy's expansion vs the Lean model, exactly; "
+        "Z-string expectation_from_samples of both classes under all/random qubit-map permutations; TFIM and X/Y/Z builders n<=4(5). "
+        "search: the same observables plus expectation (state/DM, normalize), algebra histories (+ - scalar @, both classes, mixed refused), "
+        "eigen/exp caches across scalar multiples of every sign, samples with dict/Counter/tuple maps/subset maps, all builders of models.py n<=5(6) vs explicit formulas, setters"
+    )
+    ctx.assumptions += [
+        "expectation_from_circuit (shots, basis rotations) is outside the check",
+        "term matrix = kron of per-qubit products (T15_term_matrix_full), the complete term-list statement (T15_terms_denote_full), the dense samples index (T15_samples_dense_index_full) and the model builders for all n (T15_models_tfim_full) are stated but covered by correspondence/search only",
+        "sparse matrices and non-numpy backends are not exercised",
+    ]
